@@ -10,16 +10,18 @@ def sh(cmd, cwd=None, timeout=1800):
     return p.returncode, p.stdout
 def main():
     pid, which = sys.argv[1], sys.argv[2]
-    props = [pid]; tier = "quick"
+    props = [pid]; tier = "quick"; root = "/tmp/mut"; tag = ""
     for i, a in enumerate(sys.argv):
         if a == "--props": props = sys.argv[i+1].split(",")
         if a == "--tier": tier = sys.argv[i+1]
-    wt = f"/tmp/mut/{pid}"
+        if a == "--root": root = sys.argv[i+1]
+        if a == "--tag": tag = sys.argv[i+1] + "-"
+    wt = f"{root}/{pid}"
     md = f"{wt}/MUTANTS"
     diff = f"{md}/{which}.diff"; demo = f"{md}/{which}_demo_test.go"
-    out = f"/verif/seeded/{pid}-{which}"
+    out = f"/verif/seeded/{pid}-{tag}{which}"
     os.makedirs(out, exist_ok=True)
-    meta = {"id": f"{pid}-{which}", "breaks_property": pid, "source": "independent sub-agent given only the property text and a scratch worktree"}
+    meta = {"id": f"{pid}-{tag}{which}", "breaks_property": pid, "source": "independent sub-agent given only the property text and a scratch worktree"}
     if os.path.exists(f"{md}/{which}.md"):
         meta["needs_to_manifest"] = open(f"{md}/{which}.md").read()
     ran = []
@@ -51,7 +53,7 @@ def main():
                 rc, o = sh(f"./check {p} {tier}", "/verif", timeout=3600)
                 viol = [l for l in o.splitlines() if l.startswith("VIOLATION") or l.startswith("  signature") or l.startswith("INCONCLUSIVE") or l.startswith("ENCODING")]
                 results[p] = {"exit": rc, "wall_s": round(time.time()-t0, 1), "lines": viol[:12]}
-                print(f"  {pid}-{which} vs {p} {tier}: exit={rc}  {len([l for l in viol if l.startswith('VIOLATION')])} violations", flush=True)
+                print(f"  {pid}-{tag}{which} vs {p} {tier}: exit={rc}  {len([l for l in viol if l.startswith('VIOLATION')])} violations", flush=True)
                 for l in viol[:6]: print("      " + l[:200])
         finally:
             sh("git checkout -- . && git clean -fdq", "/repo")
@@ -63,5 +65,5 @@ def main():
         old = json.load(open(mp))
         cr = old.get("check_results", {}); cr.update(results); meta["check_results"] = cr
     json.dump(meta, open(mp, "w"), indent=1)
-    print(f"{pid}-{which}: confirmed={meta['confirmed']}")
+    print(f"{pid}-{tag}{which}: confirmed={meta['confirmed']}")
 main()
